@@ -94,6 +94,66 @@ def build_inputs(rng, p, nb, sizes, k, N, hermitian, E, generic_zeroth=False):
     return BlockSeries(eval=ev, shape=(nb, nb), n_infinite=k, name="H"), table
 
 
+def build_numeric_inputs(rng, nb, sizes, k, N, name):
+    """A pre-blocked input series over small Gaussian-integer numpy blocks (generic zeroth order)."""
+    from pymablock.series import BlockSeries, zero
+
+    table = {}
+    for n in order_seq(k, N):
+        for i in range(nb):
+            for j in range(nb):
+                if rng.random() < 0.2:
+                    table[(i, j, *n)] = zero
+                else:
+                    re = np.array([[rng.randint(-2, 2) for _ in range(sizes[j])] for _ in range(sizes[i])], dtype=float)
+                    im = np.array([[rng.randint(-1, 1) for _ in range(sizes[j])] for _ in range(sizes[i])], dtype=float)
+                    table[(i, j, *n)] = re + 1j * im
+
+    def ev(*index):
+        return table[tuple(index)]
+
+    return BlockSeries(eval=ev, shape=(nb, nb), n_infinite=k, name=name), table
+
+
+def numeric_scope(nb, lo_block):
+    from pymablock.series import BlockSeries, zero
+
+    def deref(x, index):
+        return x[index] if isinstance(x, BlockSeries) else x
+
+    def dbl(x, index):
+        x = deref(x, index)
+        return x if x is zero else x + x
+
+    def tri(x, index):
+        x = deref(x, index)
+        return x if x is zero else x + x + x
+
+    scope = dict(dbl=dbl, tri=tri, ident=deref, offdiag=None)
+    if lo_block is not None:
+        flags = np.zeros((nb, nb), dtype=bool)
+        flags[lo_block, lo_block] = True
+        scope["use_linear_operator"] = flags
+    return scope
+
+
+def dense_cell(v, shape, p):
+    """One numeric element (array, LinearOperator or sentinel) -> cell record of residues."""
+    from pymablock.series import one, zero
+    from scipy.sparse.linalg import LinearOperator
+
+    if v is zero:
+        return dict(tag="zero", v=[])
+    if v is one:
+        return dict(tag="one", v=[])
+    if isinstance(v, LinearOperator):
+        v = v @ np.eye(shape[1], dtype=complex)
+    v = np.asarray(v)
+    if v.shape != tuple(shape):
+        raise ValueError(f"element of shape {v.shape}, expected {tuple(shape)}")
+    return dict(tag="val", v=common.red_matrix(v, p))
+
+
 def make_scope(p, E, keeps, flags):
     from pymablock.series import BlockSeries, zero
 
@@ -169,44 +229,75 @@ def run_session(sid, seed, spec):
     for b in spec["masked"]:
         keeps[b] = keep_mask(rng, E[b])
     flags = dict(spec["flags"])
-    H, htab = build_inputs(rng, p, nb, sizes, k, N, hermitian, E, generic_zeroth=spec.get("generic_zeroth", False))
-    inp = "H" if algo_name in ("main", "nonhermitian") else "A"
-    H.name = inp
-    scope = make_scope(p, E, keeps, flags)
-    series, _ = series_computation({inp: H}, algorithm=algo, scope=scope)
+    numeric = bool(spec.get("numeric"))
+    if numeric:
+        # numpy values, two inputs, optionally one diagonal block in linear-operator mode
+        inputs, htabs = {}, {}
+        for nm_ in spec["inputs"]:
+            inputs[nm_], htabs[nm_] = build_numeric_inputs(rng, nb, sizes, k, N, nm_)
+        scope = numeric_scope(nb, spec.get("lo_block"))
+        series, lo_series = series_computation(inputs, algorithm=algo, scope=scope)
+        inp_names = list(spec["inputs"])
+    else:
+        H, htab = build_inputs(rng, p, nb, sizes, k, N, hermitian, E, generic_zeroth=spec.get("generic_zeroth", False))
+        inp = "H" if algo_name in ("main", "nonhermitian") else "A"
+        H.name = inp
+        scope = make_scope(p, E, keeps, flags)
+        series, lo_series = series_computation({inp: H}, algorithm=algo, scope=scope)
+        inp_names, htabs = [inp], {inp: htab}
     ords = order_seq(k, N)
     names = [s["name"] for s in prog["series"]] + [pr["name"] for pr in prog["products"]]
     cells = [(nm, i, j, n) for nm in names for i in range(nb) for j in range(nb) for n in ords]
     rng.shuffle(cells)
     values = {}
+    lo_block = spec.get("lo_block") if numeric else None
+
+    def fetch(nm, i, j, n):
+        # a declared product at the block kept as linear operators exists only in its operator form (the
+        # plain product would have to add dense arrays to operators): the engine itself reads it there
+        if lo_block is not None and "@" in nm and i == j == lo_block:
+            return lo_series[nm][(i, j, *n)]
+        return series[nm][(i, j, *n)]
+
     for (nm, i, j, n) in cells:
-        values[(nm, i, j, n)] = series[nm][(i, j, *n)]
+        values[(nm, i, j, n)] = fetch(nm, i, j, n)
     # a second pass in another order: deleted terms are recomputed, cached ones re-read
     rng.shuffle(cells)
     for (nm, i, j, n) in cells[: len(cells) // 3]:
-        v2 = series[nm][(i, j, *n)]
+        v2 = fetch(nm, i, j, n)
         v1 = values[(nm, i, j, n)]
         same = (v1 is v2) or (isinstance(v1, GF) and isinstance(v2, GF) and v1 == v2)
+        if not same and numeric:
+            shp = (sizes[i], sizes[j])
+            same = dense_cell(v1, shp, p) == dense_cell(v2, shp, p)
         if not same:
             values[(nm, i, j, n)] = ("CHANGED", v1, v2)
 
-    def cell(v):
+    def cell(v, shape):
         if isinstance(v, tuple) and v and v[0] == "CHANGED":
-            return dict(tag="val", v=[[[-1, -1]]])  # cannot satisfy any equation
+            # cannot satisfy any equation (residues are never negative), in the cell's own shape
+            return dict(tag="val", v=[[[-1, -1] for _ in range(shape[1])] for _ in range(shape[0])])
+        if numeric:
+            return dense_cell(v, shape, p)
         if v is zero:
             return dict(tag="zero", v=[])
         if v is one:
             return dict(tag="one", v=[])
         return dict(tag="val", v=v.residues())
 
-    tab = {}
-    for nm in names + [inp]:
-        lst = []
+    tab, lotab = {}, {}
+    for nm in names + inp_names:
+        lst, lol = [], []
         for i in range(nb):
             for j in range(nb):
                 for n in ords:
-                    lst.append(cell(htab[(i, j, *n)] if nm == inp else values[(nm, i, j, n)]))
+                    shp = (sizes[i], sizes[j])
+                    lst.append(cell(htabs[nm][(i, j, *n)] if nm in inp_names else values[(nm, i, j, n)], shp))
+                    if numeric:
+                        # the SECOND return value: the same series wrapped into linear operators
+                        lol.append(dense_cell(lo_series[nm][(i, j, *n)], shp, p))
         tab[nm] = lst
+        lotab[nm] = lol
     pos = {n: q + 1 for q, n in enumerate(ords)}
     splits = []
     for n in ords:
@@ -227,12 +318,20 @@ def run_session(sid, seed, spec):
             for j in range(nb):
                 for n in ords:
                     work.append(dict(kind="product", q=q + 1, name=pr["name"], i=i, j=j, pos=pos[n]))
+    if numeric:
+        for nm_ in inp_names:
+            for i in range(nb):
+                for j in range(nb):
+                    for n in ords:
+                        work.append(dict(kind="input", q=0, name=nm_, i=i, j=j, pos=pos[n]))
     startmap = {s["name"]: (s["start"][6:-2] if s["start"].startswith("input:") else "") for s in prog["series"]}
     ses = dict(sid=sid, nb=nb, sizes=sizes, E=[[list(e) for e in Eb] for Eb in E],
                keep=[keeps[b].tolist() if b in keeps else [] for b in range(nb)],
-               ords=[list(n) for n in ords], splits=splits, tab=tab, prog=prog, startmap=startmap, work=work)
+               ords=[list(n) for n in ords], splits=splits, tab=tab, prog=prog, startmap=startmap, work=work,
+               haslo=1 if numeric else 0, lotab=lotab)
     meta = dict(algo=algo_name, nb=nb, sizes=sizes, k=k, N=N, masked=spec["masked"], flags=spec["flags"],
-                hermitian=hermitian, generic_zeroth=spec.get("generic_zeroth", False), cells=len(work))
+                hermitian=hermitian, generic_zeroth=spec.get("generic_zeroth", False), cells=len(work),
+                numeric=numeric, lo_block=spec.get("lo_block"))
     return ses, meta
 
 
@@ -294,6 +393,7 @@ def run(pid, tier, seed, replay=None):
     from . import dsl_gen
 
     specs += dsl_gen.generated_specs(rng, 24 if quick else 300)
+    specs += dsl_gen.numeric_specs(rng, 16 if quick else 200)
     if replay is not None:
         specs = [replay["spec"]]
     jobs = [(q + 1, seed, sp) for q, sp in enumerate(specs)]
